@@ -19,17 +19,30 @@ are out of scope: OS behaviour, not modelled.
 """
 from __future__ import annotations
 
+import atexit
 import copy
 import glob
 import itertools
 import json
 import os
 import shutil
+import sys
 import tempfile
+import time as _time
 import types
 import warnings
 
 from . import core
+
+# Everything this check writes lives under one private temporary root.  XDG_DATA_HOME is re-pointed
+# *before* perceval is imported, so that even the module-level `PersistentData()` objects of perceval
+# (JobGroup._PERSISTENT_DATA, the logger configuration) are created inside it: the user's real
+# persistent-data directory (~/.local/share/perceval-quandela) is never created, read or written.
+_ROOT = tempfile.mkdtemp(prefix="verif-c19-")
+_PERCEVAL_PRELOADED = "perceval" in sys.modules
+os.environ["XDG_DATA_HOME"] = os.path.join(_ROOT, "xdg")
+os.makedirs(os.environ["XDG_DATA_HOME"], exist_ok=True)
+atexit.register(shutil.rmtree, _ROOT, ignore_errors=True)
 
 STATUSES = ["WAITING", "RUNNING", "SUCCESS", "ERROR", "CANCELED", "SUSPENDED", "CANCEL_REQUESTED", "UNKNOWN"]
 COMPLETED = {"SUCCESS", "ERROR", "CANCELED"}
@@ -341,6 +354,7 @@ class Runner:
         self.env = Env(root, dir_exists)
         self.oracle, self.steps, self.lean_ops, self.ops = [], [], [], []
         self.dir_exists = dir_exists
+        self.dead = False
         with warnings.catch_warnings():
             warnings.simplefilter("ignore")
             self.jg = self.env.JobGroup(GROUP)
@@ -357,6 +371,11 @@ class Runner:
         JobGroup = env.JobGroup
         jg = self.jg
         t = len(self.ops)
+        if self.dead:                     # the file can no longer be loaded: the history cannot go on
+            self.ops.append(op)
+            self.lean_ops.append({"op": "reopen"})
+            self.steps.append({"mem": [], "disk": None, "reload": None, "res": "dead", "view": []})
+            return
         self.ops.append(op)
         kind = op["op"]
         res, view = "ok", []
@@ -405,13 +424,18 @@ class Runner:
                 raise RuntimeError(f"unknown op {kind}")
         except Kill:
             res = "killed"
-            jg = JobGroup(GROUP)      # the process is gone: only the file survives
+            try:
+                jg = JobGroup(GROUP)      # the process is gone: only the file survives
+            except Exception:             # noqa: BLE001 — reported by snapshot() below
+                self.dead = True
         except Exception as e:        # noqa: BLE001 — every exception class is an observation
             res = exc_name(e)
         self.jg = jg
         self.lean_ops.append(lop)
         snap = snapshot(env, jg, oracle, t, op, res)
         snap["res"], snap["view"] = res, view
+        if snap["reload"] is None:
+            self.dead = True
         prev_file = self.prev_file
         # direct oracles that need the operation's context
         if kind == "progress" and res == "ok":
@@ -467,8 +491,13 @@ def diff_req(a, b):
 def snapshot(env, jg, oracle, t, op, res):
     """memory, file, re-opened group + the property evaluated directly on them"""
     mem = env.mem_view(jg)
-    disk = env.read_file()
-    jg2 = env.JobGroup(GROUP)
+    try:
+        disk = env.read_file()
+        jg2 = env.JobGroup(GROUP)
+    except Exception as e:   # noqa: BLE001 — the group can no longer be re-opened from its file at all
+        oracle.append((t, "reopen-raises", f"re-opening the group from the file raises {type(e).__name__}: {e} "
+                                           f"(memory holds {len(jg)} jobs)"))
+        return {"mem": mem, "disk": None, "reload": None}
     reload_ = [{"id": m["id"], "st": m["st"], "hd": m["hd"]} for m in env.mem_view(jg2)]
     try:
         mem_json = env.canon_group_json(jg)
@@ -497,14 +526,35 @@ def snapshot(env, jg, oracle, t, op, res):
                 fields += ["body." + f for f in (diff_req(a["body"], b["body"]) if a["body"] and b["body"] else ["presence"])]
             if fields == ["body.job_context"]:
                 sig = SIGNATURES["ctx"]
-            elif fields in (["status"], ["status", "body.presence"]):
-                sig = SIGNATURES["stat"]
+            elif fields in (["status"], ["status", "body.presence"]) and op is not None \
+                    and op.get("op") == "launch" and op.get("rerun"):
+                sig = SIGNATURES["stat"]     # a status left unsaved by a rerun launch
             else:
                 sig = "reopened-differs:" + ",".join(fields)
             oracle.append((t, sig, f"job {i}: memory {a} vs re-opened {b}"))
             break
         if disk is None and len(jg) == 0 and not os.path.isdir(os.path.dirname(env.file)):
             pass   # empty group, nothing lost yet; reported as soon as a job exists
+    # ---- direct oracle on the objects themselves (does not go through the code's own _to_dict) ----
+    if len(jg2) == len(jg):
+        for i, (a, b) in enumerate(zip(jg.remote_jobs, jg2.remote_jobs)):
+            fields = []
+            if a.id != b.id:
+                fields.append("id")
+            if a.was_sent and a._job_status.status != b._job_status.status:
+                fields.append("status")
+            if env.meta_of_handler(a._rpc_handler) != env.meta_of_handler(b._rpc_handler):
+                fields.append("hd")
+            if a._job_status.status.name != "SUCCESS":
+                ra, rb = env.canon_req(a._request_data), env.canon_req(b._request_data)
+                if ra != rb:
+                    fields += ["body." + f for f in (diff_req(ra, rb) if ra and rb else ["presence"])]
+            if fields:
+                oracle.append((t, "reopened-object-differs:" + ",".join(fields),
+                               f"job {i}: the RemoteJob in memory and the one of the re-opened group differ in {fields} "
+                               f"(id {a.id}/{b.id}, status {a._job_status.status.name}/{b._job_status.status.name}, "
+                               f"request {env.canon_req(a._request_data)} / {env.canon_req(b._request_data)})"))
+                break
     if disk is not None:
         sent_ids = [e["id"] for e in disk if e["id"] is not None]
         if len(sent_ids) != len(set(sent_ids)):
@@ -587,16 +637,52 @@ WITNESS = {
         {"op": "launch", "rerun": True, "replace": True, "seq": False, "outs": [], "sts": ["WAITING", "SUCCESS"]}]},
 }
 WITNESS_WHAT = {
-    "ctx": "a job carrying a job_context (Sampler.probs on a sample_count-only platform) is added, the group is "
-           "re-opened and launched: the request sent and the body on disk have job_context null "
+    "ctx": "breaks 'the request finally sent for any job is the same whether or not the group was re-opened in "
+           "between': a job carrying a job_context (Sampler.probs on a sample_count-only platform) is added, the group "
+           "is re-opened and launched: the request sent and the body then written have job_context null "
            "(RemoteJob._from_dict does not restore it, _create_payload_data overwrites it)",
-    "dir": "in a fresh data directory JobGroup(name).add(job) writes nothing (the job_group sub-directory is never "
-           "created, write_file only warns): re-opening the group by name yields an empty group",
-    "add": "add() of a job whose request cannot be prepared (max_samples left unset with max_shots given) raises "
-           "TypeError after the job was appended: memory holds a job the file does not, and every later write raises",
-    "stat": "rerun_failed_*: job.is_failed refreshes the status of an active job inside the loop without writing it: "
-            "memory says SUCCESS, the file (and a re-opened group) still WAITING",
+    "dir": "breaks 'after every job-group operation that returns (creating a group, adding a job), re-opening the group "
+           "by name from disk yields the same ordered list of jobs': in a fresh data directory JobGroup(name) and "
+           "add(job) return normally but write nothing (nobody creates the job_group sub-directory — "
+           "PersistentData.create_sub_directory is never called — and write_file only warns \"Can't save\"): the "
+           "re-opened group is empty",
+    "add": "breaks 'after every job-group operation that returns or raises (adding a job), re-opening yields the same "
+           "ordered list of jobs': add() of a job whose request cannot be prepared (Sampler-style job with max_samples "
+           "left unset and max_shots given) raises TypeError *after* the job was appended: memory holds a job the file "
+           "does not, every later _write_to_file of this object raises too, so a following run_parallel() gets an "
+           "identifier from the server that never reaches the file (corpus/C19/id-lost-after-failed-add.json)",
+    "stat": "breaks 'after every operation that returns (re-running jobs), re-opening yields the same last known status "
+            "for every job that was sent': rerun_failed_*: job.is_failed refreshes the status of a still active job "
+            "inside the loop without writing it: memory says SUCCESS, the file (and a re-opened group) still WAITING",
 }
+
+
+def confirm_stat_real_timing(root):
+    """The stale-status history on the real code with *unmodified* timing (real `time`, default
+    STATUS_REFRESH_DELAY): rerun_failed_sequential on [failed job, running job]; polling the rerun of the
+    first takes > 1 s, so `job.is_failed` of the second asks the server again and the answer is not saved.
+    -> (memory statuses, re-opened statuses)"""
+    env = Env(root, True)
+    env.jgmod.time = _time
+    env.RemoteJob.STATUS_REFRESH_DELAY = 1
+    srv = env.server
+    with warnings.catch_warnings():
+        warnings.simplefilter("ignore")
+        jg = env.JobGroup(GROUP)
+        jg.add(env.build_job(dict(PLAIN)))
+        jg.add(env.build_job(dict(PLAIN, name=2)))
+        srv.script([{"accept": 0}, {"accept": 0}], [])
+        jg.run_parallel()
+        _time.sleep(1.1)
+        # refresh: ERROR, RUNNING | rerun of job 0 polled: RUNNING, (1 s) SUCCESS | job 1 asked again: SUCCESS
+        srv.script([{"accept": 0}], ["ERROR", "RUNNING", "RUNNING", "SUCCESS", "SUCCESS"])
+        jg.rerun_failed_sequential(0)
+        mem = [j._job_status.status.name for j in jg.remote_jobs]
+        re_ = [j._job_status.status.name for j in env.JobGroup(GROUP).remote_jobs]
+    env.jgmod.time = types.SimpleNamespace(sleep=lambda s: None)
+    env.RemoteJob.STATUS_REFRESH_DELAY = -1
+    shutil.rmtree(env.dir, ignore_errors=True)
+    return mem, re_
 
 
 def detect_variant(chk, root):
@@ -611,7 +697,16 @@ def detect_variant(chk, root):
         chk.case(("witness", key, bad), nontrivial=True)
         if bad:
             first = next(w for (_, s, w) in real["oracle"] if s == SIGNATURES[key])
-            chk.fail("violation", SIGNATURES[key], WITNESS_WHAT[key] + " — observed: " + first[:600],
+            extra = ""
+            if key == "stat":
+                try:
+                    mem, re_ = confirm_stat_real_timing(root)
+                    extra = (f" — with unmodified timing (real clock, STATUS_REFRESH_DELAY = 1): "
+                             f"rerun_failed_sequential on [failed, running] leaves memory {mem} vs re-opened {re_}")
+                    chk.extra["stale_status_real_timing"] = {"memory": mem, "reopened": re_}
+                except Exception as e:   # noqa: BLE001
+                    extra = f" — real-timing confirmation did not run ({type(e).__name__})"
+            chk.fail("violation", SIGNATURES[key], WITNESS_WHAT[key] + " — observed: " + first[:600] + extra,
                      {"history": hist})
     return variant
 
@@ -943,6 +1038,10 @@ def handle_batch(chk, root, batch, variant, reals=None):
         chk.case(history_signature(hist, real), nontrivial=nontrivial(hist, real),
                  sample={"dir": hist["dir"], "ops": [(o["op"], s["res"]) for o, s in zip(hist["ops"], real["steps"])][:10]})
         for kind, sig, what in judge(chk, root, hist, variant, real, rep):
+            seen = chk.extra.setdefault("failing_histories_per_signature", {})
+            seen[sig] = seen.get(sig, 0) + 1
+            if seen[sig] > 1:
+                continue          # one shrunk replay per signature; further hits are only counted
             small = shrink(chk, root, hist, variant, sig)
             chk.fail(kind, sig, what, {"history": small})
 
@@ -972,7 +1071,9 @@ def run(chk: core.Check):
                 "sequences of (operation, mode, result, group size); non-trivial = a launch refused or killed part-way, or "
                 "a re-open between an add and a launch")
     chk.assumptions = [
-        "data directory readable and writable; one JobGroup object per group name at a time; each RemoteJob object added once",
+        "data directory readable and writable (a private temporary directory; the user's real persistent-data "
+        "directory is never touched: XDG_DATA_HOME is re-pointed before perceval is imported); one JobGroup object per "
+        "group name at a time; each RemoteJob object added once; an added job whose status is SUCCESS has an identifier",
         "the server never issues the same identifier twice; status queries answer or the process dies (transient status "
         "faults are C17's subject)",
         "crash points are server calls and operation boundaries; a crash between the server's answer and the next file "
@@ -988,8 +1089,16 @@ def run(chk: core.Check):
                              "exhaustive-small-groups"]
     setup_perceval()
     chk.lean = core.LeanDriver("C19")
-    root = tempfile.mkdtemp(prefix="verif-c19-")
+    root = tempfile.mkdtemp(prefix="run-", dir=_ROOT)
     try:
+        from perceval.utils import PersistentData
+        default_dir = PersistentData().directory
+        chk.extra["data_directory_isolation"] = {
+            "perceval_default_data_dir_during_run": default_dir,
+            "inside_private_root": os.path.realpath(default_dir).startswith(os.path.realpath(_ROOT) + os.sep),
+            "perceval_imported_before_harness": _PERCEVAL_PRELOADED}
+        if not chk.extra["data_directory_isolation"]["inside_private_root"]:
+            raise RuntimeError(f"perceval's default persistent-data directory {default_dir} is outside the private root")
         variant = detect_variant(chk, root)
         chk.extra["code_variant"] = {k: ("repaired" if v else "defect present") for k, v in variant.items()}
         for hist in load_corpus():
@@ -1013,7 +1122,7 @@ def run(chk: core.Check):
                                         "one re-open at every operation boundary (or none)")
         chk.exhaustive = True
         # random histories
-        n = chk.pick(1500, 25000)
+        n = chk.pick(1500, 6000)
         max_ops = chk.pick(12, 40)
         batch, reals = [], []
         for _ in range(n):
@@ -1034,7 +1143,7 @@ def replay(chk, data):
     setup_perceval()
     chk.lean = core.LeanDriver("C19")
     chk.rule = "replay of one stored history"
-    root = tempfile.mkdtemp(prefix="verif-c19-")
+    root = tempfile.mkdtemp(prefix="replay-", dir=_ROOT)
     try:
         hist = data["replay"]["history"]
         real = run_real(root, hist)
